@@ -858,6 +858,36 @@ func (se *specEnv) call(e *SExpr) SVal {
 			return SVal{tv, target.Signature.Results()}
 		}
 		return SVal{v, target.Signature.Results().At(0).Type()}
+	case "with":
+		// with(x, "Field", v): the struct value x with one field replaced
+		if len(e.Args) != 3 {
+			sfail("with(x, \"Field\", v) takes three arguments")
+		}
+		x := se.eval(e.Args[0])
+		if x.T == nil {
+			sfail("with() on an untyped value")
+		}
+		xt := f.subst(x.T)
+		st, ok := xt.Underlying().(*types.Struct)
+		if !ok {
+			sfail("with() on a non-struct value %s", xt)
+		}
+		si := f.structInfo(xt)
+		fi := si.FieldIndex(e.Args[1].Str)
+		if fi < 0 {
+			sfail("with(): no field %s in %s", e.Args[1].Str, xt)
+		}
+		v := se.eval(e.Args[2])
+		xv := f.asTerm(x.V)
+		var parts []*Term
+		for i := 0; i < st.NumFields(); i++ {
+			if i == fi {
+				parts = append(parts, se.coerce(v, st.Field(i).Type()))
+			} else {
+				parts = append(parts, si.Get(xv, i))
+			}
+		}
+		return SVal{si.Mk(parts), x.T}
 	case "typeid":
 		x := se.eval(e.Args[0])
 		return SVal{App("typeof", SInt, f.asTerm(x.V)), ti}
